@@ -76,6 +76,12 @@ SNIPPETS = [
     ('cond-named-break-and-finish-code', 'finishcode F;\nparser { loop outer { loop { /[abc]/; if $last == 97 { break outer; } elif $last == 98 { finish F; } else { break; } } "y"; } "x"; }', False),
     ('cond-append-and-finish', 'out str[3] s;\nparser { try { loop { /[ab]/; if $last == 97 { s += [$last]; } else { finish; } } } catch (outofspace) { "z"; } }', False),
     ('cond-yield-and-break', 'yieldcode Y;\nparser { loop { /[ab]/; if $last == 97 { yield Y; } else { break; } } "x"; }', False),
+    ('ambig-wildcard-and-char-1', 'parser { /([^c]x|cy)*/; /./; }', True),
+    ('ambig-wildcard-and-char-2', 'parser { optional { /[^c]x|cy/; } /[^q]/; "z"; }', True),
+    ('ambig-wildcard-and-char-3', 'parser { optional { case { /[^c]x/, "cy" -> {} } } /./; }', True),
+    ('ambig-wildcard-and-char-4', 'parser { /[^ab]*|ab/; /[^x]/; }', True),
+    ('ambig-class-overlap', 'parser { /[ab]+/; /[bc]/; "z"; }', True),
+    ('ambig-loop-exit', 'parser { loop { /[^;]x/; } ";"; }', False),
     ('shift-chain', 'out int n;\nparser { "a"; n = [(1 << 2) << 3]; }', False),
 ]
 
